@@ -1,0 +1,10 @@
+//go:build verif
+
+// Contracts for the govc verifier (/verif). Comment-only; compiled only with -tags verif.
+// absSpec is defined in /verif/specs/url.ghost.
+
+package stringutil
+
+//@ func CreateAbsoluteURL(url, base)
+//@   fresh_assigns net/url.URL.*
+//@   ensures [C06] #case-table result == absSpec(url, base)
